@@ -18,6 +18,7 @@ F_REG = "src/CppUTest/TestRegistry.cpp"
 F_RESULT = "src/CppUTest/TestResult.cpp"
 F_RUNNER = "src/CppUTest/CommandLineTestRunner.cpp"
 F_OUTPUT = "src/CppUTest/TestOutput.cpp"
+F_ORDERED = "src/CppUTestExt/OrderedTest.cpp"
 
 # ----------------------------------------------------------------------------- tiny expression parser
 
@@ -72,9 +73,15 @@ class P:
         return a
 
     def eq(self):
-        a = self.add()
+        a = self.rel()
         while self.peek() in ("==", "!="):
-            op = self.eat(); a = ("eq" if op == "==" else "ne", a, self.add())
+            op = self.eat(); a = ("eq" if op == "==" else "ne", a, self.rel())
+        return a
+
+    def rel(self):
+        a = self.add()
+        while self.peek() in ("<", ">", "<=", ">="):
+            op = self.eat(); a = ({"<": "lt", ">": "gt", "<=": "le", ">=": "ge"}[op], a, self.add())
         return a
 
     def add(self):
@@ -119,7 +126,7 @@ def text_of(n):
     if k == "call": return text_of(n[1]) + "(" + ",".join(text_of(a) for a in n[2]) + ")"
     if k == "member": return text_of(n[2]) + n[1] + n[3]
     if k == "ite": return text_of(n[1]) + "?" + text_of(n[2]) + ":" + text_of(n[3])
-    sym = {"or": "||", "and": "&&", "eq": "==", "ne": "!=", "add": "+", "sub": "-"}[k]
+    sym = {"or": "||", "and": "&&", "eq": "==", "ne": "!=", "add": "+", "sub": "-", "lt": "<", "gt": ">", "le": "<=", "ge": ">="}[k]
     return text_of(n[1]) + sym + text_of(n[2])
 
 
@@ -140,6 +147,11 @@ def lean_bool(n, atoms, env):
     if k == "ite": return "(if %s then %s else %s)" % tuple(lean_bool(x, atoms, env) for x in n[1:4])
     if k == "eq": return "(%s == %s)" % (lean_bool(n[1], atoms, env), lean_bool(n[2], atoms, env))
     if k == "ne": return "(%s != %s)" % (lean_bool(n[1], atoms, env), lean_bool(n[2], atoms, env))
+    if k in ("lt", "gt", "le", "ge"):
+        # integer comparison: both operands must be named integer atoms
+        a, b = text_of(n[1]), text_of(n[2])
+        if a in atoms and b in atoms:
+            return "(decide (%s %s %s))" % (atoms[a], {"lt": "<", "gt": ">", "le": "≤", "ge": "≥"}[k], atoms[b])
     raise TranslateError("outside the translated subset: `%s`" % t)
 
 
@@ -257,13 +269,15 @@ def extract():
     body = function_body(utest, r"void\s+IgnoredUtestShell::setRunIgnored\s*\(\s*\)\s*\{")
     expect_shape("IgnoredUtestShell::setRunIgnored", body, "runIgnored_=true;")
 
-    body = function_body(utest, r"void\s+UtestShellPointerArray::shuffle\s*\(\s*size_t\s+seed\s*\)\s*\{")
-    m = re.match(r"if\(count_==0\)return;PlatformSpecificSrand\(\(unsignedint\)seed\);"
-                 r"for\(size_ti=count_-1;i>=1;--i\)\{if\(count_==0\)return;"
-                 r"constsize_tj=\(\(size_t\)PlatformSpecificRand\(\)\)%(.*);swap\(i,j\);\}relinkTestsInOrder\(\);$", norm(body))
+    # the shuffle draw `((size_t) PlatformSpecificRand()) % <modulus>`: the whole method (and swap / reverse /
+    # relinkTestsInOrder) is translated statement by statement from the clang AST by extract_ptrarray.py; here only the
+    # modulus the hand-written `shuffleLoop` uses is read (the loop variable may have any name)
+    body = function_body(utest, r"void\s+UtestShellPointerArray::shuffle\s*\(\s*size_t\s+\w+\s*\)\s*\{")
+    m = re.search(r"for\(size_t(\w+)=count_-1;.*?PlatformSpecificRand\(\)\)*%([^;]*);", norm(body))
     if not m:
         raise TranslateError("UtestShellPointerArray::shuffle changed shape: " + norm(body))
-    modulus = lean_nat(parse_expr(m.group(1)), {"i": "i"})
+    loopvar = m.group(1)
+    modulus = lean_nat(parse_expr(m.group(2)), {loopvar: "i"})
 
     # --- shape checks of what the hand-written model mirrors
     expect_shape("UtestShell::match",
@@ -307,17 +321,6 @@ def extract():
                  "count_=(firstTest)?firstTest->countTests():0;if(count_==0)return;arrayOfTests_=newUtestShell*[count_];"
                  "UtestShell*currentTest=firstTest;for(size_ti=0;i<count_;i++){arrayOfTests_[i]=currentTest;"
                  "currentTest=currentTest->getNext();}")
-    expect_shape("UtestShellPointerArray::swap",
-                 function_body(utest, r"void\s+UtestShellPointerArray::swap\s*\([^)]*\)\s*\{"),
-                 "UtestShell*e2=arrayOfTests_[index2];UtestShell*e1=arrayOfTests_[index1];"
-                 "arrayOfTests_[index1]=e2;arrayOfTests_[index2]=e1;")
-    expect_shape("UtestShellPointerArray::reverse",
-                 function_body(utest, r"void\s+UtestShellPointerArray::reverse\s*\(\s*\)\s*\{"),
-                 "if(count_==0)return;size_thalfCount=count_/2;for(size_ti=0;i<halfCount;i++){size_tj=count_-i-1;swap(i,j);}"
-                 "relinkTestsInOrder();")
-    expect_shape("UtestShellPointerArray::relinkTestsInOrder",
-                 function_body(utest, r"void\s+UtestShellPointerArray::relinkTestsInOrder\s*\(\s*\)\s*\{"),
-                 "UtestShell*tests=NULLPTR;for(size_ti=0;i<count_;i++)tests=arrayOfTests_[count_-i-1]->addTest(tests);")
     expect_shape("UtestShellPointerArray::getFirstTest",
                  function_body(utest, r"UtestShell\s*\*\s*UtestShellPointerArray::getFirstTest\s*\(\s*\)\s*const\s*\{"),
                  "returnget(0);")
@@ -394,17 +397,68 @@ def extract():
     expect_shape_s("TestOutput::printTestRun", function_body(out_s, r"void\s+TestOutput::printTestRun\s*\([^)]*\)\s*\{"),
                    'if(total>1){print("Test run ");print(number);print(" of ");print(total);print("\\n");}')
 
+    # --- TEST_ORDERED (OrderedTest.cpp): the three decisions are TRANSLATED, the pointer updates shape-checked
+    od = strip_comments(read(F_ORDERED))
+    body = norm(function_body(od, r"void\s+OrderedTestShell::addOrderedTestToHead\s*\([^)]*\)\s*\{"))
+    m = re.match(r"TestRegistry\*reg=TestRegistry::getCurrentRegistry\(\);UtestShell\*head=getOrderedTestHead\(\);"
+                 r"if\((.*)\)\{reg->addTest\(test\);\}else\{reg->getTestWithNext\(head\)->addTest\(test\);test->addTest\(head\);\}"
+                 r"test->_nextOrderedTest=getOrderedTestHead\(\);setOrderedTestHead\(test\);$", body)
+    if not m:
+        raise TranslateError("OrderedTestShell::addOrderedTestToHead changed shape: " + body)
+    first_null = {"NULLPTR==reg->getFirstTest()": "firstNull", "reg->getFirstTest()==NULLPTR": "firstNull", "!reg->getFirstTest()": "firstNull",
+                  "head==reg->getFirstTest()": "headIsFirst", "reg->getFirstTest()==head": "headIsFirst"}
+    ordered_front = lean_bool(parse_expr(m.group(1)), first_null, {})
+    body = norm(function_body(od, r"void\s+OrderedTestInstaller::addOrderedTestInOrder\s*\([^)]*\)\s*\{"))
+    m = re.match(r"if\((.*)\)OrderedTestShell::addOrderedTestToHead\(test\);elseaddOrderedTestInOrderNotAtHeadPosition\(test\);$", body)
+    if not m:
+        raise TranslateError("OrderedTestInstaller::addOrderedTestInOrder changed shape: " + body)
+    ordered_before_head = lean_bool(parse_expr(m.group(1)), {"test->getLevel()": "testLevel",
+                                                              "OrderedTestShell::getOrderedTestHead()->getLevel()": "headLevel"}, {})
+    body = norm(function_body(od, r"void\s+OrderedTestInstaller::addOrderedTestInOrderNotAtHeadPosition\s*\([^)]*\)\s*\{"))
+    m = re.match(r"OrderedTestShell\*current=OrderedTestShell::getOrderedTestHead\(\);while\(current->getNextOrderedTest\(\)\)\{"
+                 r"if\((.*)\)\{test->addOrderedTest\(current->getNextOrderedTest\(\)\);current->addOrderedTest\(test\);return;\}"
+                 r"current=current->getNextOrderedTest\(\);\}"
+                 r"test->addOrderedTest\(current->getNextOrderedTest\(\)\);current->addOrderedTest\(test\);$", body)
+    if not m:
+        raise TranslateError("OrderedTestInstaller::addOrderedTestInOrderNotAtHeadPosition changed shape: " + body)
+    ordered_stop = lean_bool(parse_expr(m.group(1)), {"current->getNextOrderedTest()->getLevel()": "nextLevel",
+                                                       "test->getLevel()": "testLevel"}, {})
+    body = norm(function_body(od, r"OrderedTestInstaller::OrderedTestInstaller\s*\([^)]*\)\s*\{"))
+    m = re.match(r"((?:test\.set\w+\(\w+\);)*)if\(OrderedTestShell::firstOrderedTest\(\)\)OrderedTestShell::addOrderedTestToHead\(&test\);"
+                 r"elseaddOrderedTestInOrder\(&test\);$", body)
+    want = sorted(["test.setTestName(testName)", "test.setGroupName(groupName)", "test.setFileName(fileName)",
+                   "test.setLineNumber(lineNumber)", "test.setLevel(level)"])
+    if not m or sorted(x for x in m.group(1).split(";") if x) != want:
+        raise TranslateError("OrderedTestInstaller constructor changed shape: " + body)
+    expect_shape("OrderedTestShell::firstOrderedTest", function_body(od, r"bool\s+OrderedTestShell::firstOrderedTest\s*\(\s*\)\s*\{"),
+                 "return(getOrderedTestHead()==NULLPTR);")
+    expect_shape("OrderedTestShell::addOrderedTest",
+                 function_body(od, r"OrderedTestShell\s*\*\s*OrderedTestShell::addOrderedTest\s*\([^)]*\)\s*\{"),
+                 "UtestShell::addTest(test);_nextOrderedTest=test;returnthis;")
+    expect_shape("OrderedTestShell::getNextOrderedTest",
+                 function_body(od, r"OrderedTestShell\s*\*\s*OrderedTestShell::getNextOrderedTest\s*\(\s*\)\s*\{"), "return_nextOrderedTest;")
+    expect_shape("OrderedTestShell::getOrderedTestHead",
+                 function_body(od, r"OrderedTestShell\s*\*\s*OrderedTestShell::getOrderedTestHead\s*\(\s*\)\s*\{"), "return_orderedTestsHead;")
+    expect_shape("OrderedTestShell::setOrderedTestHead", function_body(od, r"void\s+OrderedTestShell::setOrderedTestHead\s*\([^)]*\)\s*\{"),
+                 "_orderedTestsHead=test;")
+    expect_shape("OrderedTestShell::getLevel", function_body(od, r"int\s+OrderedTestShell::getLevel\s*\(\s*\)\s*\{"), "return_level;")
+    expect_shape("OrderedTestShell::setLevel", function_body(od, r"void\s+OrderedTestShell::setLevel\s*\([^)]*\)\s*\{"), "_level=level;")
+    expect_shape("TestRegistry::getFirstTest", function_body(reg, r"UtestShell\s*\*\s*TestRegistry::getFirstTest\s*\(\s*\)\s*\{"), "returntests_;")
+
     for fn, field in (("countTest", "testCount_"), ("countRun", "runCount_"),
                       ("countFilteredOut", "filteredOutCount_"), ("countIgnored", "ignoredCount_")):
         expect_shape("TestResult::" + fn, function_body(res, r"void\s+TestResult::%s\s*\(\s*\)\s*\{" % fn), field + "++;")
 
-    text = HEADER % ("translate/extract_registry.py", "%s, %s, %s" % (F_FILTER, "src/CppUTest/Utest.cpp", F_REG))
+    text = HEADER % ("translate/extract_registry.py", "%s, %s, %s, %s" % (F_FILTER, "src/CppUTest/Utest.cpp", F_REG, F_ORDERED))
     text += "namespace Gen.Registry\n"
     text += "def filterMatch (strict invert eq contains : Bool) : Bool :=\n  %s\n" % filter_match
     text += "def shouldRun (matchGroup matchName : Bool) : Bool :=\n  %s\n" % should_run
     text += "def endOfGroup (testNull nextNull groupDiffers : Bool) : Bool :=\n  %s\n" % end_of_group
     text += "def ignoredRuns (runIgnored : Bool) : Bool :=\n  %s\n" % ignored_runs
     text += "def shuffleModulus (i : Nat) : Nat :=\n  %s\n" % modulus
+    text += "def orderedAddAtFront (firstNull headIsFirst : Bool) : Bool :=\n  %s\n" % ordered_front
+    text += "def orderedBeforeHead (testLevel headLevel : Int) : Bool :=\n  %s\n" % ordered_before_head
+    text += "def orderedStopBefore (nextLevel testLevel : Int) : Bool :=\n  %s\n" % ordered_stop
     text += "end Gen.Registry\n"
     return text
 
